@@ -1813,3 +1813,27 @@ B('c02-benign-assert-consistency-shape', 'C02', PK,
                 return False
             raise
         return True''')
+
+# =========================================================================== configuration plumbing
+S('c05-element-conf-dropped', 'C05', SF,
+  '''        self.prototype_field.field_name = self.seq_elem_field_name
+        self.prototype_field._compile(
+            position=-1, fields=[], bisturi_conf=bisturi_conf
+        )''',
+  '''        self.prototype_field.field_name = self.seq_elem_field_name
+        self.prototype_field._compile(
+            position=-1, fields=[], bisturi_conf={}
+        )''', 'R9-conf-plumbing')
+S('c06-window-option-renamed', 'C06', F,
+  '''            self._search_buffer_length = bisturi_conf.get(
+                'search_buffer_length'
+            )''',
+  '''            self._search_buffer_length = bisturi_conf.get(
+                'search_buffer_len'
+            )''', 'C06-strategy-selection')
+S('c07-position-from-original-list', 'C07', PB,
+  '''            map(compile_field, *zip(*enumerate(self.fields))), additional_slots''',
+  '''            map(compile_field, *zip(*enumerate(self.fields_in_class))), additional_slots''', 'R8-conf-plumbing')
+S('c10-describe-without-conf', 'C10', PB,
+  '''        self.fields = sum([field._describe_yourself(name, self.bisturi_conf) \\''',
+  '''        self.fields = sum([field._describe_yourself(name, {}) \\''', 'R8-conf-plumbing')
